@@ -34,7 +34,11 @@ class Tape:
         if low is None and high is None:
             self.calls.append("uniform()")
             return (v % 1024) / 1024.0
-        assert (low, high) == (0, 1), f"oracle: unexpected uniform({low},{high})"
+        if (low, high) != (0, 1):
+            # any other bounds (BroadcastingState.reset draws uniform(-1, 1)): low + (high - low) (v mod 1024)/1024, numpy's
+            # half-open range; Lean: Oracle.uniformLH
+            self.calls.append(f"uniform({low},{high})")
+            return low + (high - low) * ((v % 1024) / 1024.0)
         self.calls.append("uniform(0,1)")
         if self.health_open:
             return (v % 1023 + 1) / 1024.0
